@@ -124,13 +124,30 @@ class MEngine:
             s.push()
             try:
                 s.add(z3.Not(z3.substitute(conj, lmap)))
-                r = guarded_check(s, 20000)
+                r = guarded_check(s, 5000)
                 if r == z3.unsat:
                     break
-                if r != z3.sat:
-                    bad_all += [k for k, _ in remaining]     # undecided: drop them (always sound)
-                    break
-                m = s.model()
+                m = None
+                if r == z3.sat:
+                    m = s.model()
+                else:
+                    # undecided (string constraints on the path): ask again with the string-free part of
+                    # the path condition - a weaker hypothesis, so at worst clauses are dropped needlessly
+                    s2 = z3.Solver()
+                    s2.set("timeout", 5000)
+                    for a_ in it.ctx.pc:
+                        if not _mentions_strings(a_):
+                            s2.add(a_)
+                    s2.add(z3.Not(z3.substitute(conj, lmap)))
+                    r2 = guarded_check(s2, 5000)
+                    self._unknown_checks = getattr(self, "_unknown_checks", 0) + 1
+                    if r2 == z3.unsat:
+                        break
+                    if r2 == z3.sat:
+                        m = s2.model()
+                    else:
+                        bad_all += [k for k, _ in remaining]     # still undecided: drop them (always sound)
+                        break
                 val = {}
                 ph = cl.placeholders()
                 for (lit, e) in zip(ph.keys(), [x[1] for x in lmap]):
@@ -224,6 +241,31 @@ class MEngine:
             for n in ast.walk(s.target):
                 if isinstance(n, ast.Name):
                     it.havoc_target(("local", n.id), fr)
+
+
+_str_memo = {}
+
+
+def _mentions_strings(e):
+    k = e.get_id()
+    if k in _str_memo:
+        return _str_memo[k]
+    stack, seen, r = [e], set(), False
+    while stack:
+        x = stack.pop()
+        if x.get_id() in seen:
+            continue
+        seen.add(x.get_id())
+        if z3.is_quantifier(x):
+            stack.append(x.body())
+            continue
+        so = x.sort()
+        if so.kind() in (z3.Z3_SEQ_SORT, z3.Z3_RE_SORT):
+            r = True
+            break
+        stack.extend(x.children())
+    _str_memo[k] = r
+    return r
 
 
 def violated(ctx, forms):
